@@ -3,11 +3,11 @@ package main
 // C06 — verdict follows the documented precedence, whatever the rule order.
 
 import (
-	"os"
 	"fmt"
 	"go/constant"
 	"go/token"
 	"go/types"
+	"os"
 	"sort"
 	"strings"
 
@@ -22,7 +22,7 @@ func init() {
 			"(gated evaluation of one loop iteration) and compared, by enumerating every combination of the rule features they read, with the precedence table of the property statement: special-purpose rules " +
 			"(cookie/replace/csp/stealth) never become the basic rule; blocking rules are suppressed by a referrer $urlblock exception, generic blocking rules by a $genericblock exception; the incumbent is replaced only if nil or outranked. " +
 			"R1: both selectors range over the output of the badfilter filter and the rewrite filter applied to their parameter. R5: GetBasicResult's table. R6: the engines pass (rules of the request, rules of the referrer matched as a document) in this order. " +
-			"Order independence itself rests on C07 (strict weak order, checked there) and on the scans being complete (C07.R5). R11: a $urlblock and a $genericblock referrer exception that are otherwise alike must not tie under IsHigherPriority (the scope is read off the one exception that wins the scan); today they tie: recorded finding F21. The selection scan may sit in a helper activation, the incumbent in a cell updated by a helper, the rewrite filter fused into the DNS selector's scan.",
+			"Order independence itself rests on C07 (strict weak order, checked there) and on the scans being complete (C07.R5). R11: a $urlblock and a $genericblock referrer exception that are otherwise alike must not tie under IsHigherPriority (the scope is read off the one exception that wins the scan); today they tie: recorded finding F21. The selection scan may sit in a helper activation, the incumbent in a cell updated by a helper, the rewrite filter fused into the DNS selector's scan. R13 imports C02.R9 (host-level predicate), R14 imports C12.R7 (whole lines).",
 		Trusted: []string{"precedence table transcribed from the property statement", "C07 (priority is a strict weak order whose first stages are the verdict classes) — decided by its own check"},
 	})
 }
